@@ -4,6 +4,64 @@ import json
 from harness import fml
 from harness.common import parse_fields
 from harness.runner import Check, offline_case, online_case, need_vars, expect_vals
+import random
+
+
+# ---- bounds written with explicit time units (the notations of harness/c08.py) ----
+
+def spell(f, sp):
+    """the case options {'spec', 'period', 'unit'} of the formula f under the spelling sp, or {} when f has no bounded operator.
+    sp = {'seed': s}: the random equivalent spelling c08.spelling(Random(s), f) (explicit units on both ends / one end / none, another
+    default unit, a sampling period given in another unit);
+    sp = {'seed': s, 'fixed': [period, period unit, default unit, style, unit of begin, unit of end]}: every bound in that one notation.
+    The text is rebuilt from (f, sp) whenever it is needed, so that a shrunk formula keeps its notation."""
+    from harness import c08
+    if not sp or not (fml.ops(f) & (fml.TUN | fml.TBIN)):
+        return {}
+    rng = random.Random(sp['seed'])
+    if not sp.get('fixed'):
+        r = c08.spelling(rng, f)
+        return {'spec': r['spec'], 'period': r['period'], 'unit': r['unit']}
+    p, pu, du, style, ub, ue = sp['fixed']
+    pns = p * c08.U[pu]
+
+    def bound(b, e):
+        sb = c08.dec(b * pns, ub if style != 'end' else ue)
+        se = c08.dec(e * pns, ue if style != 'begin' else ub)
+        return '[%s%s:%s%s]' % (sb, ub if style != 'end' else '', se, ue if style != 'begin' else '')
+    return {'spec': 'out = ' + fml.to_text(f, bound), 'period': [p, pu, 0.1], 'unit': du}
+
+
+def unit_corners():
+    """the sugar unless[a,b] (= always[0,b] or until[a,b]: TWO windows made from one written interval) and the other bounded operators with
+    their bounds written in a unit that is not the default unit, in every one-sided notation; the data make the windows matter:
+    the left operand holds exactly on the window and fails right after it (or holds at the first sample only), the right operand never / late"""
+    X, Y = ('pred', 'geq', ('var', 0), ('const', 0)), ('pred', 'geq', ('var', 1), ('const', 0))
+    fs = [('unlesst', 0, 2, X, Y), ('unlesst', 1, 2, X, Y), ('unlesst', 2, 3, X, Y), ('not', ('unlesst', 0, 2, X, Y)), ('alwt', 0, 1, ('unlesst', 0, 2, X, Y)),
+          ('unlesst', 0, 1, ('unlesst', 0, 1, X, Y), Y), ('and', ('unlesst', 1, 3, X, Y), X), ('untilt', 1, 2, X, Y), ('alwt', 0, 2, X), ('evt', 1, 3, Y),
+          ('sincet', 0, 2, X, Y), ('histt', 0, 2, X), ('oncet', 1, 2, Y)]
+    data = [[[1, 1, 1, -1, -1, -1, -1, -1], [-1] * 8], [[2, -1, -1, -1, -1, -1, -1, -1], [-1] * 8], [[3, 3, 3, 3, -2, -2, 1, 1], [-1, -1, -1, 2, -1, -1, -1, -1]],
+            [[1, 1, 1, 1, 1, 1, 1, 1], [-2] * 8], [[-1, 1, 1, 1, -1, 1, 1, 1], [-1, -1, 2, -1, -1, -1, -1, 3]]]
+    # (period, its unit, default unit, style, unit of begin, unit of end): written unit finer / coarser than the default unit, unit on one end only
+    # (units next to the default unit only: a reading of the number in the wrong one of the two is off by 1000, which stays cheap to evaluate)
+    notations = [(1, 's', 's', 'both', 'ms', 'ms'), (1, 's', 's', 'end', 'ms', 'ms'), (1, 's', 's', 'begin', 'ms', 'ms'), (1, 's', 's', 'both', 's', 'ms'),
+                 (1, 'ms', 'ms', 'end', 's', 's'), (500, 'ms', 'ms', 'both', 's', 's'), (1, 'ms', 'ms', 'both', 'us', 'us'), (100, 'us', 'us', 'begin', 'ms', 'ms'),
+                 (1000, 'ms', 'us', 'end', 'ms', 'ms'), (250, 'us', 'us', 'both', 'ns', 'us')]
+    out = []
+    for i, f in enumerate(fs):
+        for j, nt in enumerate(notations):
+            if i >= 7 and j % 3 != i % 3:
+                continue        # the operators that are no sugar: a third of the notations each
+            for cols in (data if i < 3 else data[(i + j) % 5:][:2] or data[:1]):
+                out.append((f, [list(c) for c in cols], {'seed': 0, 'fixed': list(nt)}))
+    # the sugar without bounds (nothing to write units on)
+    for f in (('unless', X, Y), ('not', ('unless', X, Y)), ('alwt', 0, 1, ('unless', X, Y)), ('unless', ('unlesst', 0, 1, X, Y), Y)):
+        for k, cols in enumerate(data):
+            out.append((f, [list(c) for c in cols], {'seed': 0, 'fixed': list(notations[k])}))
+    # a written interval of 2 s with default unit ms and a period of 1 ms: 2000 samples; read in the default unit it would be 2 samples
+    out.append((('unlesst', 0, 2000, X, Y), [list(c) for c in data[0]], {'seed': 0, 'fixed': [1, 'ms', 'ms', 'end', 's', 's']}))
+    out.append((('unlesst', 0, 2000, X, Y), [list(c) for c in data[3]], {'seed': 0, 'fixed': [1, 'ms', 'ms', 'both', 's', 's']}))
+    return out
 
 
 def simple_preds(f):
@@ -20,6 +78,11 @@ class C07(Check):
     RULE = ('seeded random typed iff/xor-free formulas (predicates over arithmetic terms, Boolean/temporal above); offline values (and online for '
             'past-time formulas) compared with the Boolean semantics sat of Sat.v: v > 0 => sat, v < 0 => not sat, at every sample; '
             'for formulas whose predicates compare one variable with a constant, a perturbed trace with sup-distance < |rho(t)| must keep the sign at t; '
+            '30% of the random formulas have some until / until[a,b] turned into the sugar unless / unless[a,b]; 25% of the cases with bounded operators (60% of those with unless[a,b]) are written '
+            'with explicit time units on both ends / one end of the bounds, another default unit and a sampling period given in another unit (the notations of C08), every monitor of the case '
+            'reading that text while sat is computed on the bounds in samples; deterministic corners: unless[a,b] (alone, negated, nested, below always) and the other bounded operators with bounds '
+            'in a unit finer / coarser than the default unit in every one-sided notation, on data whose left operand holds exactly on the window; a stream of unless[a,b] below random contexts with '
+            'explicit units; '
             '35% of the cases are also run under one of the four interface-aware semantics with a random input/output assignment (sign soundness for every predicate kind, C07_ia); non-trivial = some sample has non-zero finite or infinite robustness and formula has >= 3 nodes; distinct by (formula, data)')
 
     def gen_cases(self, rng, tier):
@@ -38,6 +101,8 @@ class C07(Check):
                         return ('pred', c, ('var', rng.randrange(nv)), ('const', rng.randint(0, 4)))
                     return fml.rebuild(s, [fix(k) for k in fml.children(s)])
                 f = fix(f)
+            if rng.random() < 0.3:
+                f = fml.add_unless(rng, f)       # the sugar unless / unless[a,b]
             if fml.size(f) > 50:
                 continue
             n = rng.choice([1, 2, 3, 5, 8, 12, 20])
@@ -46,10 +111,41 @@ class C07(Check):
             # perturbation: every sample moves by at most 1/2 (values are integers, robustness too)
             pert = [[v + rng.choice([-0.5, -0.25, 0, 0.25, 0.5]) for v in col] for col in cols]
             c = {'f': f, 'n': n, 'nv': nv, 'cols': cols, 'pert': pert, 'times': list(range(n)), 'simple': simple_preds(f)}
+            if (fml.ops(f) & (fml.TUN | fml.TBIN)) and rng.random() < (0.6 if 'unlesst' in fml.ops(f) else 0.25):
+                c['spell'] = {'seed': rng.randrange(10 ** 9)}
             if rng.random() < 0.35:
                 # the same under an interface-aware semantics: predicates become +-inf / 0, the sign must stay sound (C07_ia)
                 c['ia'] = {'sem': rng.choice(['output-robustness', 'input-robustness', 'output-vacuity', 'input-vacuity']), 'io': [rng.randint(0, 1) for _ in range(nv)]}
             cases.append(c)
+        # bounds with explicit units: deterministic corners, then unless[a,b] below random contexts
+        for (f, cols, sp) in unit_corners():
+            n = len(cols[0])
+            pert = [[v + (0.5 if (k + j) % 2 else -0.5) for k, v in enumerate(col)] for j, col in enumerate(cols)]
+            cases.append({'f': f, 'n': n, 'nv': 2, 'cols': cols, 'pert': pert, 'times': list(range(n)), 'simple': True, 'spell': sp})
+        units = ['s', 'ms', 'us', 'ns']
+        for i in range(60 if tier == 'quick' else 800):
+            X = ('pred', rng.choice(['geq', 'gt']), ('var', 0), ('const', rng.randint(0, 2)))
+            Y = ('pred', rng.choice(['geq', 'gt', 'leq']), ('var', 1), ('const', rng.randint(0, 4)))
+            b = rng.randint(0, 3)
+            f = ('unlesst', rng.randint(0, b), b, X, Y)
+            for _ in range(rng.choice([0, 0, 1, 1, 2])):
+                k = rng.random()
+                e = rng.randint(0, 2)
+                f = (('not', f) if k < 0.25 else ('alwt', 0, e, f) if k < 0.4 else ('evt', rng.randint(0, e), e, f) if k < 0.5 else (rng.choice(['and', 'or', 'implies']), f, rng.choice([X, Y]))
+                     if k < 0.7 else ('unlesst', 0, e, f, Y) if k < 0.8 else ('untilt', 0, e, X, f) if k < 0.9 else ('implies', Y, f))
+            n = rng.choice([3, 5, 8, 12])
+            # the left operand holds on a prefix and fails after it, the right one rarely holds
+            k = rng.randint(0, n)
+            cols = [[rng.randint(1, 5) if t < k else rng.randint(-4, 0) for t in range(n)], [rng.choice([-3, -2, -1, -1, 5]) for _ in range(n)]]
+            if rng.random() < 0.3:
+                cols = fml.gen_trace(rng, 2, n)
+            pert = [[v + rng.choice([-0.5, -0.25, 0, 0.25, 0.5]) for v in col] for col in cols]
+            du = rng.choice(units)
+            near = [u for u in units if abs(units.index(u) - units.index(du)) == 1]        # (off by 1000 when read in the wrong unit: still cheap)
+            ub, ue = rng.choice(near), rng.choice(near)
+            p, pu = rng.choice([(1, 's'), (1, 'ms'), (500, 'ms'), (250, 'us'), (2, 's'), (1000, 'us'), (100, 'ns')])
+            cases.append({'f': f, 'n': n, 'nv': 2, 'cols': cols, 'pert': pert, 'times': list(range(n)), 'simple': True,
+                          'spell': {'seed': 0, 'fixed': [p, pu, du, rng.choice(['both', 'both', 'end', 'begin']), ub, ue]}})
         # the robustness of a predicate is a ROUNDED difference: a sample far from the threshold (beyond 2^53 ulps of it) gets a robustness
         # that is larger than the exact margin, and a perturbation below it (in exact arithmetic) flips the verdict (FloatLip.float_sub_l_refuted,
         # Props/FloatInstance.C07_robust_float_refuted); deterministic cases, judged with exact rationals
@@ -70,15 +166,16 @@ class C07(Check):
         return ['(sat %s %d %s)' % (fml.to_sx(c['f']), c['n'], fml.trace_sx(c['cols']))]
 
     def impl_cases(self, c):
-        out = [offline_case(c['f'], c['cols'], c['times'], c['nv'])]
+        sp = spell(c['f'], c.get('spell'))       # (the specification text with explicit units, the period and the default unit, for every monitor of the case)
+        out = [offline_case(c['f'], c['cols'], c['times'], c['nv'], **sp)]
         if c.get('simple') and 'pert' in c and len(c['pert'][0]) == c['n']:
-            out.append(offline_case(c['f'], c['pert'], c['times'], c['nv']))
+            out.append(offline_case(c['f'], c['pert'], c['times'], c['nv'], **sp))
         else:
-            out.append(offline_case(c['f'], c['cols'], c['times'], c['nv']))
+            out.append(offline_case(c['f'], c['cols'], c['times'], c['nv'], **sp))
         if not fml.has_future(c['f']):
-            out.append(online_case(c['f'], c['cols'], c['times'], c['nv']))
+            out.append(online_case(c['f'], c['cols'], c['times'], c['nv'], **sp))
         if c.get('ia'):
-            kw = {'semantics': c['ia']['sem'], 'io': {fml.VARS[i]: ('input' if (c['ia']['io'] + [0] * c['nv'])[i] else 'output') for i in range(c['nv'])}}
+            kw = dict(sp, semantics=c['ia']['sem'], io={fml.VARS[i]: ('input' if (c['ia']['io'] + [0] * c['nv'])[i] else 'output') for i in range(c['nv'])})
             out.append(offline_case(c['f'], c['cols'], c['times'], c['nv'], **kw))
             if not fml.has_future(c['f']):
                 out.append(online_case(c['f'], c['cols'], c['times'], c['nv'], **kw))
@@ -112,6 +209,8 @@ class C07(Check):
         sat = [x == '1' for x in m['SAT']]
         sigs = []
         for i in ires:
+            if i['setup'].get('kind') == 'Timeout' or any(r.get('kind') == 'Timeout' for r in i['calls']):
+                c['_timeout'] = 1
             if i['setup']['status'] != 'ok':
                 return 'violation', {'expected': 'evaluates', 'observed': i['setup']}
             vals = []
@@ -124,6 +223,8 @@ class C07(Check):
         pert = [p[1] for p in sigs[1][0]]
         num = lambda v: float(v) if not isinstance(v, str) else float(v)
         det = {'sat': sat, 'offline': off}
+        if c.get('spell'):
+            det['specification'] = spell(c['f'], c['spell'])
         nstd = 2 if fml.has_future(c['f']) else 3
         streams = [('offline', off)] + ([('online', sigs[2])] if nstd == 3 else [])
         if c.get('ia') and len(sigs) > nstd:
@@ -158,6 +259,8 @@ class C07(Check):
     def still_fails(self, model, c, shape=None):
         if c.get('round'):
             return False, None        # crafted pairs of samples: shrinking one of the two makes another case of it
+        if c.get('_timeout'):
+            return False, None        # a case that ran into the time limit is reported as it is (every candidate would use the limit up again)
         return Check.still_fails(self, model, c, shape)
 
     def signature(self, c, detail):
@@ -169,11 +272,27 @@ class C07(Check):
     def nontrivial(self, c):
         return fml.size(c['f']) >= 3 and c.get('_nz', 0) > 0
 
+    def features(self, c):
+        fs = Check.features(self, c)
+        sp = spell(c['f'], c.get('spell')) if 'f' in c else {}
+        if sp:
+            import re
+            us = set(re.findall(r'[0-9](s|ms|us|ns)\b', sp['spec']))
+            fs = fs + ['bounds_with_explicit_units'] + (['bounds_in_another_unit_than_the_default'] if us - {sp['unit']} else [])
+            if 'unlesst' in fs:
+                fs.append('unlesst_with_explicit_units')
+                if us - {sp['unit']}:
+                    fs.append('unlesst_in_another_unit_than_the_default')
+        return sorted(fs)
+
     def key(self, c):
-        return json.dumps([fml.to_sx(c['f']), c['cols']])
+        return json.dumps([fml.to_sx(c['f']), c['cols'], spell(c['f'], c.get('spell'))])
 
     def describe(self, c):
-        return {'spec': 'out = ' + fml.to_text(c['f']), 'data': c['cols'], 'perturbed': c.get('pert')}
+        d = {'spec': 'out = ' + fml.to_text(c['f']), 'data': c['cols'], 'perturbed': c.get('pert')}
+        if c.get('spell'):
+            d['written_as'] = spell(c['f'], c['spell'])
+        return d
 
 
 def main(tier, seed, replay=None):
